@@ -42,7 +42,7 @@ func RandomLayout(r *core.Rand) *Layout {
 	l.Blanks = r.Bool()
 	l.Filler = []int{0, 15, 40, 70}[r.Intn(4)]
 	l.Trailing = []int{0, 20, 60}[r.Intn(3)]
-	l.NoFinalEOL = false
+	l.NoFinalEOL = r.Chance(1, 3)
 	return l
 }
 
@@ -80,6 +80,9 @@ func (l *Layout) Dims() []string {
 	}
 	if l.Trailing > 0 {
 		d = append(d, "trailing-comments")
+	}
+	if l.NoFinalEOL {
+		d = append(d, "no-final-eol")
 	}
 	return d
 }
@@ -308,8 +311,14 @@ func (o *out) line(parts []Part, cond *Expr, tags []string) string {
 		s += " <<" + l.osp() + "if " + l.osp() + l.Expr(cond) + l.osp() + ">>"
 		kind = "after-condition"
 	}
-	for _, t := range tags {
-		s += l.sp() + "#" + t
+	for i, t := range tags {
+		if i == 0 && cond == nil {
+			// the blanks between the text and the first tag belong to the text token:
+			// they are content, not layout
+			s += " #" + t
+		} else {
+			s += l.sp() + "#" + t
+		}
 		kind = "after-tag"
 	}
 	return o.trail(s, kind == "after-text", kind)
